@@ -11,7 +11,7 @@ pub fn replay_probe<H: HB>(c: &Case, q: &AnyQ<H>, m: &Model, unordered: bool) ->
     match name.as_str() {
         "extend-differential" => {
             if let Some(Op::Extend(seq, _)) = &c.last {
-                return crate::post::extend_differential(q, m, &c.universe, &[seq.clone()], true).map(|_| ()).map_err(|e| e.1);
+                return crate::post::extend_differential(q, m, &c.universe, &[seq.clone()], true, &|_| ()).map(|_| ()).map_err(|e| e.1);
             }
         }
         "from_iter-differential" => {
